@@ -53,6 +53,91 @@ namespace {
   }
 
 
+  /*!
+   * does the LU decomposition used by det(st2tost2) / det(t2tot2) (LU/LUDecomp.ixx: the
+   * rows are exchanged when |pivot| <= max|column|/10) exchange rows on this
+   * matrix?  Only used to *label* the input class (key), never as an oracle.
+   */
+  inline bool luExchangesRows(int n, ref::Vec a, R u) {
+    // the comparison is made by the library in the tested type on rounded entries:
+    // ambiguous steps (ratio within 1e4 u of the threshold) are labelled as exchanges
+    const R thr = 0.1L * (1 + 1e4L * u);
+    for (int k = 0; k < n; ++k) {
+      int piv = k;
+      R cmax = std::fabs(a[static_cast<std::size_t>(k * n + k)]);
+      for (int i = k + 1; i < n; ++i)
+        if (std::fabs(a[static_cast<std::size_t>(i * n + k)]) > cmax) {
+          cmax = std::fabs(a[static_cast<std::size_t>(i * n + k)]);
+          piv = i;
+        }
+      if (cmax == 0) return false;  // singular: the decomposition stops
+      if (piv != k && std::fabs(a[static_cast<std::size_t>(k * n + k)]) <= cmax * thr) {
+        return true;
+      }
+      for (int i = k + 1; i < n; ++i) {
+        const R f = a[static_cast<std::size_t>(i * n + k)] / a[static_cast<std::size_t>(k * n + k)];
+        for (int j = k; j < n; ++j)
+          a[static_cast<std::size_t>(i * n + j)] -= f * a[static_cast<std::size_t>(k * n + j)];
+      }
+    }
+    return false;
+  }
+
+
+  /*!
+   * n x n matrix from classes that force (or not) row exchanges in an LU
+   * decomposition with threshold pivoting: tiny or zero diagonal entries,
+   * row-permuted triangular, small integers, sparse integers, dense.
+   */
+  inline ref::Vec pivotMatrix(verif::Case& c, int n) {
+    ref::Vec g(static_cast<std::size_t>(n * n), R(0));
+    auto at = [&](int I, int J) -> R& { return g[static_cast<std::size_t>(I * n + J)]; };
+    const auto cls = c.integer(0, 4, "pivot_class");
+    switch (cls) {
+      case 0: {
+        c.tag("pivot.tiny_leading");
+        // identity + bounded perturbation, some diagonal entries tiny or zero
+        for (int I = 0; I < n; ++I)
+          for (int J = 0; J < n; ++J) at(I, J) = (I == J ? R(1) : R(0)) + R(c.sreal(0.5, "p")) / n;
+        const int k = static_cast<int>(c.integer(0, n - 1, "which"));
+        at(k, k) = c.boolean("zero") ? R(0) : R(c.log10real(-12, -1.5, "tiny"));
+        if (c.boolean("two")) at(0, 0) = c.boolean("zero0") ? R(0) : R(c.log10real(-12, -1.5, "tiny0"));
+        break;
+      }
+      case 1: {
+        c.tag("pivot.permuted_triangular");
+        ref::Vec t(static_cast<std::size_t>(n * n), R(0));
+        const bool upper = c.boolean("upper");
+        for (int I = 0; I < n; ++I)
+          for (int J = 0; J < n; ++J) {
+            if (I == J) t[static_cast<std::size_t>(I * n + J)] = (c.boolean("neg") ? -1 : 1) * R(c.real(0.5, 2., "diag"));
+            else if ((J > I) == upper) t[static_cast<std::size_t>(I * n + J)] = R(c.sreal(1., "off"));
+          }
+        std::vector<int> perm(static_cast<std::size_t>(n));
+        for (int I = 0; I < n; ++I) perm[static_cast<std::size_t>(I)] = I;
+        for (int I = n - 1; I > 0; --I)
+          std::swap(perm[static_cast<std::size_t>(I)],
+                    perm[static_cast<std::size_t>(c.integer(0, I, "perm"))]);
+        for (int I = 0; I < n; ++I)
+          for (int J = 0; J < n; ++J)
+            at(I, J) = t[static_cast<std::size_t>(perm[static_cast<std::size_t>(I)] * n + J)];
+        break;
+      }
+      case 2:
+        c.tag("pivot.small_int");
+        for (auto& x : g) x = R(c.integer(-3, 3, "c"));
+        break;
+      case 3:
+        c.tag("pivot.sparse_int");
+        for (auto& x : g) x = c.chance(1, 2, "nz") ? R(c.integer(-2, 2, "c")) : R(0);
+        break;
+      default:
+        c.tag("pivot.dense");
+        for (auto& x : g) x = R(c.sreal(1., "c"));
+    }
+    return g;
+  }
+
 }  // namespace
 
 #endif /* VERIF_C02_COMMON_HXX */
